@@ -63,12 +63,14 @@ def call(ex, f, e):
             sub = Exec(ex.eng, None, None, spec_mode=True)
             sub.fname = ex.fname
             sub.env = {}
+            ex.eng._cur_ex = ex
             for (pn, kd), a in zip(c.params, args):
                 # re-wrap through the declared kind so static type information is kept
-                sub.env[pn] = ex.eng.wrap_kind(ex.eng.unwrap_kind(a, kd), kd)
+                sub.env[pn] = a if kd == 'set' else ex.eng.wrap_kind(ex.eng.unwrap_kind(a, kd), kd)
             body = [st for st in c.fn.body if not (isinstance(st, ast.Expr) and isinstance(st.value, ast.Constant))]
             r = sub.merge_block(body)
             return ex.eng.wrap_kind(ex.eng.unwrap_kind(r, retk), retk)
+        ex.eng._cur_ex = ex
         zs = [ex.eng.unwrap_kind(a, kd) for a, kd in zip(args, kinds)]
         return ex.eng.wrap_kind(fn(*zs), retk)
     if k == 'bound':
